@@ -222,15 +222,29 @@ def sec_programs(ctx, rng, case):
     qindex = {q: i for i, q in enumerate(qubits)}
     # reference per moment: group abstract steps by the moment their op landed in
     op_iter = iter(ref_steps)
+    kept_steps = []
     for mi, step in enumerate(sim.simulate_moment_steps(circuit, qubit_order=full_order, initial_state=k0)):
         for _op in circuit[mi].operations:
             st = next(op_iter)
             psi = L.apply_to_state(psi, st.matrix, [pos[w] for w in st.wires], rdims)
+        peek = int(rng.integers(4))
+        if peek == 1:
+            step.state_vector()  # a look without a copy first
+        elif peek == 2:
+            step.dirac_notation()
+        elif peek == 3 and all(d == 2 for d in rdims):
+            step.bloch_vector_of(full_order[0])
         got = step.state_vector(copy=bool(rng.integers(2)))
         ok = ctx.check(L.allclose(got, psi, _tol(dtype)), "simulate_moment_steps", "C01:moment-steps:split=%s" % split,
                        lambda: "state after moment %d deviates by %.3g" % (mi, L.maxdiff(got, psi)), moment=mi, **wit)
+        # a copy asked for explicitly is the caller's to keep: it still shows this moment after the simulation moved on
+        kept_steps.append((mi, step.state_vector(copy=True), psi.copy(), peek))
         if not ok or mi + 1 >= stop_at:
             break  # abandon the iterator early (documented as allowed)
+    for mi, arr, ref_psi, peek in kept_steps:
+        ctx.check(L.allclose(arr, ref_psi, _tol(dtype)), "simulate_moment_steps", "C01:moment-steps:kept-copy-overwritten:split=%s" % split,
+                  lambda: "state_vector(copy=True) of moment %d (taken after peek %d) was changed by later moments (now off by %.3g)" % (mi, peek, L.maxdiff(arr, ref_psi)),
+                  moment=mi, **wit)
 
     # 5. density matrix simulator
     if D <= 32:
